@@ -27,7 +27,7 @@ FINGERPRINTED = [
     "_get_numpy_value", "_get_bool_value", "_same_shape", "_merge_shapes", "OptimizerState.get_shape_value",
     "add", "abs", "gather", "reshape", "squeeze", "cast", "cast_like", "shape", "size", "if_op", "identity",
     "sequence_construct", "concat", "dropout", "expand", "concat_from_sequence", "split_to_sequence", "sequence_at",
-    "_move_initializers_to_graph", "_propagate_shape_value",
+    "_move_initializers_to_graph", "_propagate_shape_value", "ReferenceEvaluator.get_evaluator", "_get_int_attribute",
 ]
 
 
